@@ -275,6 +275,9 @@ class ContractInterp(Interp):
         if isinstance(old, VMap):
             st.heap[(old.ref, "dom")] = st.fresh(name + ".dom", st.heap[(old.ref, "dom")].sort())
             st.heap[(old.ref, "val")] = st.fresh(name + ".val", st.heap[(old.ref, "val")].sort())
+            if getattr(old, "ordered", False):
+                from .tys import fresh_order
+                fresh_order(st, old.ref, old.key, name)
             return old
         if isinstance(old, VList):
             raise Unsupported(f"havoc of a concrete-length list {name}")
